@@ -19,7 +19,7 @@ RULE_T = ("threaded compile: one case = one seed = (generated spec with collidin
           "textures and muscles) x (pool width, schedule) on the simulated scheduler; a dry run counts the N allocator calls of "
           "mj_compile(usethread=1); then for EVERY k <= N (N <= maxexec, else first, last and a seeded sample) the k-th call fails in a fresh run "
           "under the same schedule: no signal, no mju_error delivered to the user handler on a worker thread, no double/foreign free, no pool "
-          "deadlock, mj_compile returns NULL with a message, and a fault-free compile in the same process gives the baseline bytes")
+          "deadlock, mj_compile returns NULL with a message, a deep copy (mj_copySpec) of the spec whose compile has just failed compiles to the baseline bytes, and a fault-free compile in the same process gives the baseline bytes")
 
 
 def run(tier):
